@@ -149,7 +149,7 @@ func runOne(name string, p prop) {
 
 var props = map[string]prop{}
 
-func atoi(s string) int { n, _ := strconv.Atoi(s); return n }
+
 
 func baseEnv(scratch string) []string {
 	keep := []string{"PATH", "TMPDIR"}
